@@ -78,7 +78,7 @@ def run(ctx):
     apps = [("Files", "wsgi", W.Files(base), "/page.html"), ("Files", "asgi", A.Files(base), "/page.html"),
             ("Pages", "wsgi", W.Pages(base), "/page"), ("Pages", "asgi", A.Pages(base), "/page.html")]
     TPS = K["TPS"]
-    thin = ctx.tier == "thorough"
+    thin = True      # a request that ends a longest history is replayed on one of the four apps, every other edge on all four
 
     def set_file(fs):
         with open(target, "wb") as f:
@@ -107,8 +107,6 @@ def run(ctx):
 
     try:
         for ai, (appname, iface, app, path) in enumerate(apps):
-            if ctx.tier == "quick" and ai in (1, 2):
-                continue     # quick: Files on WSGI and Pages on ASGI; thorough: all four
 
             def make_real(init):
                 return []      # real responses recorded so far (parallel to the model's resp)
@@ -119,7 +117,7 @@ def run(ctx):
                 if name not in ("Plain", "Cond"):
                     return real
                 if thin and s1["steps"] == K["MaxSteps"] and zlib.crc32(("%s>%s" % (src, dst)).encode()) % len(apps) != ai:
-                    return real      # thorough: a request that ends a longest history is replayed on one of the four apps
+                    return real
                 set_file(s0["file"])
                 case = {"app": appname, "iface": iface, "history_len": s0["steps"], "action": lab,
                         "file": dict(s0["file"]), "clock": s0["clock"]}
